@@ -180,6 +180,9 @@ def one_op(p, inner=False):
                                     st.sampled_from(["roundoff", "roundoff", "tiny_e", "tiny_e", "huge_xy", "huger_xy", "tiny_xy", "inch_feed",
                                                      "tiny_merge", "huge_merge", "tiny_z", "leave_far", "tiny_base", "tiny_base", "spelled_merge"]),
                                     st.integers(1, 9), st.integers(0, 8)))]
+        if p["rel"] and p.get("zres", 1):
+            # relative Z steps that sum to zero only up to float round-off (0.1 + 0.2 - 0.3), from Z0 or from the current height
+            parts += [(p.get("zres", 1), st.tuples(st.just("zres"), st.booleans()))]
         if not inner and p.get("visits", True):
             parts += [(4, op_visit(p))]
         _CACHE[key] = weighted(parts)
@@ -442,6 +445,19 @@ class Renderer(object):  # pylint: disable=too-many-instance-attributes
             if not self.pr.abs:
                 self.g("G90")
             self.op(("mv", "grid", 0, i, i, mask, None, 0, None, "G1"))
+        elif k == "zres":
+            if self.exact:
+                self.rewrites += 1
+                return
+            was_abs = self.pr.abs
+            if was_abs and o[1]:
+                self.g("G1 Z0")
+            if was_abs:
+                self.g("G91")
+            for d in ("0.1", "0.2", "-0.3"):
+                self.g("G1 Z" + fmt(float(d) / self.pr.u, 9))
+            if was_abs:
+                self.g("G90")
         elif k == "stress":
             self.stress(o)
         elif k == "visit":
